@@ -71,7 +71,7 @@ func (p *C18) Gen(seed uint64, e int, tier string) *scen.Scenario {
 			if d == "/" {
 				d = ""
 			}
-			switch r.Intn(8) {
+			switch r.Intn(9) {
 			case 0:
 				qs = append(qs, d+"/a.go")
 			case 1:
@@ -88,6 +88,8 @@ func (p *C18) Gen(seed uint64, e int, tier string) *scen.Scenario {
 				qs = append(qs, scen.Pick(r, []string{"a/b.go", "./x.go", "../y.go", "z.go", ""}))
 			case 6:
 				qs = append(qs, "/elsewhere"+d+"/e.go")
+			case 7:
+				qs = append(qs, d+"/sub/")
 			default:
 				qs = append(qs, d+"2/f.go")
 			}
